@@ -25,6 +25,8 @@ package metrics
 import (
 	"fmt"
 	"runtime"
+	"sort"
+	"strconv"
 	"sync"
 	"sync/atomic"
 	"time"
@@ -485,13 +487,21 @@ func (mc *Collector) Reset() {
 
 // metricKey generates a unique key for a metric with tags
 func (mc *Collector) metricKey(name string, tags map[string]string) string {
+	// The key must depend on the identity only: tags are rendered in sorted key
+	// order (map iteration order is random) and every part is quoted, so that no two
+	// different (name, tags) pairs can render to the same key.
+	key := strconv.Quote(name)
 	if len(tags) == 0 {
-		return name
+		return key
 	}
 
-	key := name
-	for k, v := range tags {
-		key += ":" + k + "=" + v
+	keys := make([]string, 0, len(tags))
+	for k := range tags {
+		keys = append(keys, k)
+	}
+	sort.Strings(keys)
+	for _, k := range keys {
+		key += ":" + strconv.Quote(k) + "=" + strconv.Quote(tags[k])
 	}
 	return key
 }
